@@ -136,6 +136,6 @@ func (e *Engine) ParseTemplateAndCache(source []byte, path string, line int) (*T
 	if err != nil {
 		return t, err
 	}
-	e.cfg.Cache[path] = source
+	e.cfg.CacheSource(path, source)
 	return t, err
 }
